@@ -130,6 +130,43 @@ func runC01(cfg *config) *Report {
 		}
 	}
 	cases = append(cases, roundTrips(cfg, rep, bfiles, bnotes, []encCfg{{true, false}}, "C01")...)
+	// the premise of the reassembly theorems (Props/C01.lean, FileOK) evaluated by the driver on the
+	// generated trees under the regenerated model: how many meet it (non-vacuity of C01_write_read_lp)
+	{
+		var ops []string
+		var idx []int
+		for i := range cases {
+			// evaluated on the file as the reader returns it: a freshly built file differs from it in the
+			// unexported `reserved` members (blank columns read back as blanks), which the theorem's exact
+			// equality sees
+			if cases[i].enc.LP && cases[i].werr == nil && cases[i].rerr == "ok" {
+				ops = append(ops, fmt.Sprintf("fileokwhy\t1\t%s\t%s", b01(cases[i].enc.EBCDIC), cases[i].rd))
+				idx = append(idx, i)
+			}
+		}
+		got, err := leanParallel(cfg.driver, ops, runtime.NumCPU())
+		if err == nil {
+			for j, g := range got {
+				c := cases[idx[j]]
+				why := g
+				if len(why) > 40 {
+					why = why[:40]
+				}
+				if g != "ok" && len(rep.Notes) < 3 {
+					rep.Notes = append(rep.Notes, "FileOK premise not met ("+c.enc.String()+"): "+g[:min(len(g), 4000)])
+				}
+				rep.count("theorem-premise-FileOK:" + why + ":" + c.enc.String())
+				roundTripped := c.werr == nil && c.rerr == "ok" && exportedOnly(c.rd) == exportedOnly(c.dump)
+				if g == "ok" && !roundTripped {
+					// the theorem says the MODEL reads the file back; the implementation did not: the
+					// correspondence stream reports where they part, this is only counted
+					rep.count("theorem-premise-met-but-implementation-differs")
+				}
+			}
+		} else {
+			rep.Notes = append(rep.Notes, "fileok evaluation failed: "+err.Error())
+		}
+	}
 	probeFindings(cfg, rep, r)
 	for _, c := range cases {
 		rep.Evaluations++
